@@ -564,3 +564,30 @@ func VerifC07Unwrap() {
 	verif.Assert("C07/unwrap/wire-value-inhabits-declared-type", decls.accepts(typ, doc, 0))
 	verif.Reach("C07/unwrap/decided")
 }
+
+// VerifC07ResultAccepts: does the TypeScript type expression typ, read over the declarations the
+// real emitters give for msgs, accept the wire form of a response of the given shape
+// (0 bare list of strings, 1 bare map of strings, 2 bare map of Child objects, 3 the object {ok}).
+func VerifC07ResultAccepts(typ string, shape int, msgs []*protogen.Message) bool {
+	d := &c07Decls{}
+	for _, m := range msgs {
+		GenerateInterface(d.printer(), m)
+	}
+	var doc *c06V
+	switch shape {
+	case 0:
+		doc = &c06V{cat: c06Arr, elems: []*c06V{{cat: c06Str}}}
+	case 1:
+		doc = c06Object()
+		doc.set(verif.StringIn("key", 2, "a-z"), &c06V{cat: c06Str})
+	case 2:
+		c := c06Object()
+		c.set("street", &c06V{cat: c06Str})
+		doc = c06Object()
+		doc.set(verif.StringIn("key", 2, "a-z"), c)
+	default:
+		doc = c06Object()
+		doc.set("ok", &c06V{cat: c06Bool})
+	}
+	return d.accepts(typ, doc, 0)
+}
